@@ -209,6 +209,61 @@ func init() {
 				out.Violate("C12|source-without-lint:"+s, "Sources() lists "+s+" which no registered lint carries", s, nil, nil)
 			}
 		}
+		// after first use and late registrations of every kind the lookups must still agree with the listing
+		{
+			late := lateRegistrationPrelude()
+			reportLate(out, "C12", "names", "byname", "sources")
+			_ = g.Names()
+			all := map[string]bool{}
+			var count int
+			for _, l := range g.CertificateLints().Lints() {
+				all[l.Name] = true
+				count++
+			}
+			for _, l := range g.RevocationListLints().Lints() {
+				all[l.Name] = true
+				count++
+			}
+			for _, l := range g.OcspResponseLints().Lints() {
+				all[l.Name] = true
+				count++
+			}
+			for rep := 0; rep < 3; rep++ {
+				nm := g.Names()
+				if len(nm) != count || !sort.StringsAreSorted(nm) {
+					out.Violate("C12|names-after-use", fmt.Sprintf("after first use and late registrations Names() has %d entries (sorted=%v) for %d registered lints (call %d)", len(nm), sort.StringsAreSorted(nm), count, rep+1), late, count, len(nm))
+					break
+				}
+				seen := map[string]bool{}
+				for _, x := range nm {
+					if seen[x] || !all[x] {
+						out.Violate("C12|names-after-use", "after first use Names() lists "+x+" twice or lists a name that is not registered", x, nil, nil)
+						break
+					}
+					seen[x] = true
+				}
+			}
+			for _, k := range []struct {
+				n  []string
+				ok func(string) bool
+			}{{g.CertificateLints().Names(), func(n string) bool { return g.CertificateLints().ByName(n) != nil }},
+				{g.RevocationListLints().Names(), func(n string) bool { return g.RevocationListLints().ByName(n) != nil }},
+				{g.OcspResponseLints().Names(), func(n string) bool { return g.OcspResponseLints().ByName(n) != nil }}} {
+				for _, n := range k.n {
+					if !k.ok(n) {
+						out.Violate("C12|kind-names-disagree:"+n, "after use, a per-kind Names() lists "+n+" which ByName of that kind does not find", n, nil, nil)
+						break
+					}
+				}
+			}
+			listedSrc := map[string]bool{}
+			for _, s := range g.Sources() {
+				listedSrc[string(s)] = true
+			}
+			if !listedSrc["RFC6960"] || !listedSrc["Community"] {
+				out.Violate("C12|sources-after-use", "after late registrations Sources() misses a source carried by a registered lint", nil, nil, nil)
+			}
+		}
 		// registration histories through the unexported register methods (hook) vs the model
 		nHist := 150
 		if tier() == "thorough" {
